@@ -7,7 +7,7 @@ import ast
 from ..cfg import cfg_of
 from ..index import AnalysisError, function_stmts, parent, walk_no_nested
 from ..roles import schema_backend_classes
-from ..util import callee_last, calls_in, enclosing_stmt, kw, path_condition, show_condition, txt
+from ..util import Expander, callee_last, calls_in, enclosing_stmt, kw, names_in, path_condition, show_condition, txt
 from . import c06
 
 EXPLANATION = (
@@ -68,46 +68,105 @@ def r2_shape(ctx):
     ix = ctx.ix
     f = ix.func("pandera/backends/pandas/base.py::PandasSchemaBackend.drop_invalid_rows")
     ctx.touched(f)
+    ex = Expander(f.node)
+    data, handler = f.positional[1], f.positional[2]
     loops = [s for s in function_stmts(f) if isinstance(s, ast.For)]
-    it_ok = False
-    for l in loops:
-        src = txt(l.iter)
-        defs = [s for s in function_stmts(f) if isinstance(s, ast.Assign) and txt(s.targets[0]) == src]
-        full = src.endswith(".schema_errors") or any(txt(d.value).endswith(".schema_errors") for d in defs)
-        it_ok = it_ok or full
+    full_loops = [l for l in loops if ex.text(l.iter) == f"{handler}.schema_errors"]
+    it_ok = bool(full_loops)
     ctx.ob("R2", f, "pandas: folds over all collected schema errors", it_ok,
-           "for err in error_handler.schema_errors" if it_ok else "the loop does not range over every collected error")
-    masks = [s for s in function_stmts(f) if isinstance(s, ast.Assign) and any(callee_last(c) == "isin" for c in calls_in(s))]
-    neg = any(isinstance(s.value, ast.UnaryOp) and isinstance(s.value.op, ast.Invert) and "index.isin" in txt(s.value) for s in masks)
-    ctx.ob("R2", f, "pandas: mask = ~check_obj.index.isin(<failing labels>)", neg,
-           "negated membership of the row label" if neg else f"mask is `{txt(masks[0].value) if masks else None}`: keeps the failing rows / drops valid ones")
-    src_ok = any("failure_cases" in txt(s.value) and "index" in txt(s.value) for s in function_stmts(f) if isinstance(s, ast.Assign) and txt(s.targets[0]) == "index_values")
+           f"for err in {handler}.schema_errors" if it_ok else "the loop does not range over every collected error")
+    # the cumulative selection  data = data.loc[~data.index.isin(<labels>)]  inside that loop
+    sels = []
+    for s in function_stmts(f):
+        if isinstance(s, ast.Assign) and len(s.targets) == 1 and txt(s.targets[0]) == data and isinstance(s.value, ast.Subscript) \
+                and txt(s.value.value) == f"{data}.loc":
+            sels.append(s)
+    inside = bool(sels) and all(any(p is l for p in _parents(s) for l in full_loops) for s in sels)
+    ctx.ob("R2", f, "pandas: rows selected with .loc[mask] for each error, cumulatively", bool(sels) and inside,
+           f"{data} = {data}.loc[mask] inside the loop" if sels and inside else "selection is not cumulative over the errors")
+    neg = bool(sels)
+    labels = []
+    shown = None
+    for s in sels:
+        m = ex.expand(s.value.slice)
+        shown = txt(m)
+        good = isinstance(m, ast.UnaryOp) and isinstance(m.op, ast.Invert) and isinstance(m.operand, ast.Call) \
+            and txt(m.operand.func) == f"{data}.index.isin" and len(m.operand.args) == 1
+        neg = neg and good
+        if good:
+            labels.append(m.operand.args[0])
+    ctx.ob("R2", f, f"pandas: mask = ~{data}.index.isin(<failing labels>)", neg,
+           "negated membership of the row label" if neg else f"mask is `{shown}`: not the complement of the failing labels of the current frame")
+    # every definition of the labels derives from <loop var>.failure_cases["index"]
+    src_ok = bool(labels)
+    for lab in labels:
+        loopvar = next((txt(l.target) for l in full_loops), None)
+        defs = [lab]
+        seen = set()
+        leaves = []
+        while defs:
+            d = defs.pop()
+            found_name = False
+            for n in ast.walk(d):
+                if isinstance(n, ast.Name) and n.id not in seen and n.id in ex.defs:
+                    seen.add(n.id)
+                    defs += ex.defs[n.id]
+                    found_name = True
+            if not found_name or f"{loopvar}.failure_cases" in txt(d):
+                leaves.append(d)
+        want = (f"{loopvar}.failure_cases['index']", f'{loopvar}.failure_cases["index"]')
+        src_ok = src_ok and bool(leaves) and all(any(w in txt(d) for w in want) for d in leaves)
     ctx.ob("R2", f, "pandas: failing labels come from err.failure_cases['index']", src_ok, "index column of the failure cases" if src_ok else "labels taken from elsewhere")
-    sel = [s for s in function_stmts(f) if isinstance(s, ast.Assign) and txt(s.targets[0]) == f.positional[1] and ".loc[" in txt(s.value)]
-    inside = bool(sel) and all(any(isinstance(p, ast.For) for p in _parents(s)) for s in sel)
-    ctx.ob("R2", f, "pandas: rows selected with .loc[mask] for each error, cumulatively", bool(sel) and inside,
-           "check_obj = check_obj.loc[mask] inside the loop" if sel and inside else "selection is not cumulative over the errors")
     ret = [s for s in function_stmts(f) if isinstance(s, ast.Return)]
-    ok = any(isinstance(s.value, ast.Name) and s.value.id == f.positional[1] for s in ret)
-    ctx.ob("R2", f, "pandas: returns the filtered object", ok, "return check_obj" if ok else "returns something else")
+    ok = bool(ret) and all(isinstance(s.value, ast.Name) and s.value.id == data for s in ret)
+    ctx.ob("R2", f, "pandas: returns the filtered object", ok, f"return {data}" if ok else "returns something else")
+
     g = ix.func("pandera/backends/polars/base.py::PolarsSchemaBackend.drop_invalid_rows")
     ctx.touched(g)
-    folds = [c for c in calls_in(g.node) if callee_last(c) == "fold"]
+    gx = Expander(g.node)
+    gdata, ghandler = g.positional[1], g.positional[2]
+    whole = gx.expand(ast.Module(body=[s for s in g.node.body if isinstance(s, ast.Return)], type_ignores=[]))
+    folds = [c for c in ast.walk(whole) if isinstance(c, ast.Call) and callee_last(c) == "fold"]
     ok = False
-    detail = "no fold"
+    detail = "no fold reaches the returned frame"
     for c in folds:
-        acc = kw(c, "acc")
-        fn = kw(c, "function")
-        acc_ok = acc is not None and "True" in txt(acc)
-        fn_ok = isinstance(fn, ast.Lambda) and isinstance(fn.body, ast.BinOp) and isinstance(fn.body.op, ast.BitAnd)
-        ok = acc_ok and fn_ok
+        acc = kw(c, "acc") or (c.args[0] if c.args else None)
+        fn = kw(c, "function") or (c.args[1] if len(c.args) > 1 else None)
+        acc_ok = acc is not None and isinstance(acc, ast.Call) and callee_last(acc) == "lit" and acc.args and isinstance(acc.args[0], ast.Constant) and acc.args[0].value is True
+        fn_ok = isinstance(fn, ast.Lambda) and isinstance(fn.body, ast.BinOp) and isinstance(fn.body.op, ast.BitAnd) \
+            and {txt(fn.body.left), txt(fn.body.right)} == {a.arg for a in fn.args.args}
+        ok = bool(acc_ok and fn_ok)
         detail = f"acc={txt(acc) if acc is not None else None}, function={txt(fn) if fn is not None else None}"
     ctx.ob("R2", g, "polars: AND-fold of the check_output masks starting from True", ok, detail)
-    allerr = any(isinstance(n, ast.DictComp) and "enumerate(errors)" in txt(n.generators[0].iter) and not n.generators[0].ifs for n in walk_no_nested(g.node))
-    ctx.ob("R2", g, "polars: every collected error contributes its mask", allerr, "dict over enumerate(errors)" if allerr else "errors are filtered before the fold")
-    filt = any(isinstance(s, ast.Return) and isinstance(s.value, ast.Call) and callee_last(s.value) == "filter" and txt(s.value.func.value) == g.positional[1]
-               for s in function_stmts(g))
-    ctx.ob("R2", g, "polars: returns check_obj.filter(valid_rows)", filt, "filter on the fold result" if filt else "result is not the filtered frame")
+    comps = [n for n in ast.walk(whole) if isinstance(n, ast.DictComp)]
+    allerr = False
+    why = "no dict of check outputs reaches the fold"
+    for n in comps:
+        gen = n.generators[0]
+        it = gen.iter
+        idx = None
+        if isinstance(it, ast.Call) and callee_last(it) == "enumerate" and it.args and isinstance(gen.target, ast.Tuple):
+            idx = txt(gen.target.elts[0])
+            var = txt(gen.target.elts[1])
+            src = txt(it.args[0])
+        else:
+            var, src = txt(gen.target), txt(it)
+        over_all = src == f"{ghandler}.schema_errors" and not gen.ifs and len(n.generators) == 1
+        val_ok = txt(n.value) == f"{var}.check_output"
+        key_ok = idx is not None and idx in names_in(n.key) and not (names_in(n.key) - {idx, "str", "repr", "int", "format"})
+        allerr = over_all and val_ok and key_ok
+        why = ("one mask per collected error under a key that is distinct per error" if allerr else
+               ("errors are filtered before the fold" if not over_all else
+                (f"value `{txt(n.value)}` is not the error's check_output" if not val_ok else
+                 f"key `{txt(n.key)}` is not injective in the position of the error: masks of different errors overwrite each other")))
+    ctx.ob("R2", g, "polars: every collected error contributes its mask", allerr, why)
+    filt = False
+    for s in function_stmts(g):
+        if isinstance(s, ast.Return):
+            v = s.value
+            filt = isinstance(v, ast.Call) and callee_last(v) == "filter" and txt(v.func.value) == gdata and len(v.args) == 1 \
+                and any(isinstance(c, ast.Call) and callee_last(c) == "fold" for c in ast.walk(gx.expand(v.args[0])))
+    ctx.ob("R2", g, f"polars: returns {gdata}.filter(valid_rows)", filt, "filter on the fold result" if filt else "result is not the frame filtered by the fold")
 
 
 def _parents(n):
